@@ -770,7 +770,10 @@ class SchedRun:
             conds = [sk for sk in oks if opof[sk].get("cond") == "current" and opof[sk]["op"] == "put"]
             for a, b in itertools.combinations(conds, 2):
                 if opof[a]["name"] == opof[b]["name"]:
-                    return viol("both-conditional-succeed", "two conditional updates of %s against the same etag both succeeded" % opof[a]["name"], overlapping=concurrent(a, b))
+                    # overlapping: the two overlap each other, or a third acknowledged write overlaps one
+                    # of them (on a store without serialisation that write can put the old version back)
+                    ov = concurrent(a, b) or any(concurrent(x, a) or concurrent(x, b) for x in oks if x not in (a, b))
+                    return viol("both-conditional-succeed", "two conditional updates of %s against the same etag both succeeded" % opof[a]["name"], overlapping=ov)
             uids = {}
             overlapping_dup = False
             for nm, d in sorted(final.items()):
